@@ -532,6 +532,7 @@ package memfs
 //@   ensures result == len(d.nodes)
 //@ func (*Dir).ModTime [C01 C09]
 //@   modifies $none
+//@   locks d.mu
 //@ func (*File).Size [C01 C09]
 //@   modifies $none
 //@   ensures result == len(f.data)
